@@ -726,7 +726,12 @@ impl ZiPatch {
             // A set of files not present in the new directory, that used to be in base (aka removedf iles)
             let removed_files: Vec<&PathBuf> = base_files
                 .iter()
-                .filter(|item| !new_files.contains(item))
+                .filter(|item| {
+                    let relative_path = item.strip_prefix(base_directory).ok();
+                    !new_files
+                        .iter()
+                        .any(|new_item| new_item.strip_prefix(new_directory).ok() == relative_path)
+                })
                 .collect();
 
             // Process added files
